@@ -70,7 +70,7 @@ class VG:
             if key in self.env:  # attribute assigned earlier in this region (flow-sensitive fields)
                 return self.env[key]
             b = self.ev(e.value)
-            if b == ("sym", "self") and self.cls and self.inline:
+            if b == ("sym", "self") and self.cls and self.inline is True:
                 pf = self.find(e.attr)
                 if pf is not None and pf.is_property:
                     body = strip_docstring(pf.node.body)
@@ -161,16 +161,34 @@ class VG:
                     return ("matmul", recv, args[0])
             if recv == ("glob", "np") and f.attr == "dot" and len(args) == 2 and not kws:
                 return ("matmul", args[0], args[1])
+            if recv == ("glob", "np") and len(args) == 2 and not kws:
+                # the function spelling of the arithmetic operators
+                if f.attr == "add":
+                    return mk_ac("+", [args[0], args[1]])
+                if f.attr == "multiply":
+                    return mk_ac("*", [args[0], args[1]])
+                if f.attr == "subtract":
+                    return mk_ac("+", [args[0], ("neg", args[1])])
+                if f.attr in ("divide", "true_divide"):
+                    return mk_ac("*", [args[0], ("inv", args[1])])
+                if f.attr == "matmul":
+                    return ("matmul", args[0], args[1])
+            if recv == ("glob", "np") and f.attr == "negative" and len(args) == 1 and not kws:
+                return ("neg", args[0])
             if recv == ("glob", "np") and f.attr in ("array", "copy", "asarray", "ascontiguousarray") and len(args) == 1 \
                     and not kws and args[0][0] not in ("list", "tuple", "comp"):
                 return args[0]  # value identity of an array copy / no-op conversion
-            if recv == ("sym", "self") and self.cls and self.depth < 2 and self.inline:
+            if recv == ("sym", "self") and self.cls and self.depth < 2 and \
+                    (self.inline is True or (self.inline == "private" and f.attr.startswith("_")
+                                             and not f.attr.startswith("__"))):
                 mf = self.find(f.attr)
                 if mf is not None and not mf.is_property:
                     body = strip_docstring(mf.node.body)
                     if len(body) <= 4:
                         params = [a.arg for a in mf.node.args.args]
                         b = {"self": ("sym", "self")}
+                        # fields assigned earlier in the caller are seen by the helper with those values
+                        b.update({k: v for k, v in self.env.items() if k.startswith("self.")})
                         for p, a in zip(params[1:], args):
                             b[p] = a
                         for k, v in kws:
